@@ -43,7 +43,7 @@ type schedCase struct {
 
 func genCase(t *rapid.T) schedCase {
 	c := schedCase{Mode: "counter"}
-	if fw.Pct(t, "createMode", 12) {
+	if fw.Pct(t, "createMode", 20) {
 		c.Mode = "create"
 	}
 	n := fw.Range(t, "nprocs", 2, 3)
@@ -55,6 +55,14 @@ func genCase(t *rapid.T) schedCase {
 		if c.Mode == "create" {
 			p.Kind = "creator"
 			p.Txns = 1
+			if i > 0 {
+				// next to the creators: a creator that rolls back, and processes that read or extend the table
+				// that is being created (they may run before, while or after it comes into being)
+				p.Kind = []string{"creator", "creator_rb", "newreader", "newwriter"}[fw.Weighted(t, "ckind", []int{40, 15, 25, 20})]
+				if p.Kind == "newreader" || p.Kind == "newwriter" {
+					p.Txns = fw.Range(t, "btxns", 1, 2)
+				}
+			}
 		} else {
 			p.Kind = []string{"writer", "rmw", "reader", "sfu", "rollback", "reader"}[fw.Weighted(t, "kind", []int{25, 20, 20, 15, 10, 10})]
 		}
@@ -95,10 +103,17 @@ type procResult struct {
 	errs     []string // error classes of failed statements
 	errMsgs  []string
 	timedOut bool
+	errAfter []bool // create mode: the table had been created and committed when the failing statement began
+	appends  int    // create mode: committed INSERTs of a 'newwriter'
 }
 
 func checkCase(c schedCase) (fw.Outcome, *fw.Violation) {
 	o := fw.Outcome{Classes: []string{"mode=" + c.Mode, fmt.Sprintf("procs=%d", len(c.Procs))}}
+	if c.Mode == "create" {
+		for _, p := range c.Procs {
+			o.Classes = append(o.Classes, "create:"+p.Kind)
+		}
+	}
 	dir := filepath.Join(fw.WorkDir(), fmt.Sprintf("c09-%d", atomic.AddInt64(&seq, 1)))
 	_ = os.RemoveAll(dir)
 	_ = os.MkdirAll(dir, 0755)
@@ -133,7 +148,9 @@ func checkCase(c schedCase) (fw.Outcome, *fw.Violation) {
 	curLo := make([]int, n)
 	var violation *fw.Violation
 	lockPath := filepath.Join(dir, "."+filepath.Base(table)+".lock")
-	inWindow := false // some process is inside an acquisition window (between its first check and ready/back-off)
+	createCommitted := false     // create mode: a creator's COMMIT has swapped the table in
+	createStates := []string{""} // create mode: column a of the table after each commit ("" = no table yet)
+	inWindow := false            // some process is inside an acquisition window (between its first check and ready/back-off)
 	windowOwner := -1
 	interleavedInWindow := 0
 	observe := func(p sched.Point) {
@@ -189,8 +206,20 @@ func checkCase(c schedCase) (fw.Outcome, *fw.Violation) {
 			if windowOwner == p.Proc {
 				inWindow = false
 			}
+		case (p.Name == "h.commit.done" || p.Name == "h.close.done" || p.Name == "h.closew.done") && isTable:
+			// the handler is gone whatever control files it had (one handler per path and process)
+			holdX[p.Proc] = false
 		case p.Name == "h.commit.unlock" && isTable:
 			commitsDone++
+			if c.Mode == "create" && p.Proc < len(c.Procs) {
+				switch c.Procs[p.Proc].Kind {
+				case "creator":
+					createCommitted = true
+					createStates = append(createStates, fmt.Sprint(p.Proc+1))
+				case "newwriter":
+					createStates = append(createStates, createStates[len(createStates)-1]+","+fmt.Sprint(100+p.Proc))
+				}
+			}
 		case p.Name == "cf.try":
 			if inWindow && windowOwner != p.Proc {
 				interleavedInWindow++
@@ -205,11 +234,26 @@ func checkCase(c schedCase) (fw.Outcome, *fw.Violation) {
 			spec := c.Procs[i]
 			defer s.Close()
 			exec := func(sql string) bool {
+				mu.Lock()
+				after := createCommitted
+				mu.Unlock()
 				res := s.Exec(sql)
 				if res.Err != nil {
 					r.errs = append(r.errs, run.ErrClass(res.Err))
 					r.errMsgs = append(r.errMsgs, sql+": "+res.Err.Error())
+					r.errAfter = append(r.errAfter, after)
 					return false
+				}
+				if strings.HasPrefix(sql, "SELECT a FROM") {
+					v := "<shape>"
+					if len(res.Views) == 1 {
+						var cells []string
+						for _, row := range res.Views[0].Rows {
+							cells = append(cells, row[0].S)
+						}
+						v = strings.Join(cells, ",")
+					}
+					r.reads = append(r.reads, v)
 				}
 				if strings.HasPrefix(sql, "SELECT n FROM") && !strings.Contains(sql, "FOR UPDATE") {
 					if len(res.Views) == 1 && len(res.Views[0].Rows) == 1 {
@@ -248,6 +292,15 @@ func checkCase(c schedCase) (fw.Outcome, *fw.Violation) {
 					ok = exec("CREATE TABLE `newt.csv` (a)") && exec(fmt.Sprintf("INSERT INTO `newt.csv` VALUES (%d)", i+1)) && exec("COMMIT")
 					if ok {
 						r.commits++
+					}
+				case "creator_rb":
+					ok = exec("CREATE TABLE `newt.csv` (a)") && exec(fmt.Sprintf("INSERT INTO `newt.csv` VALUES (%d)", i+1)) && exec("ROLLBACK")
+				case "newreader":
+					ok = exec("SELECT a FROM `newt.csv`") && exec("COMMIT")
+				case "newwriter":
+					ok = exec(fmt.Sprintf("INSERT INTO `newt.csv` VALUES (%d)", 100+i)) && exec("COMMIT")
+					if ok {
+						r.appends++
 					}
 				}
 				if !ok {
@@ -333,8 +386,11 @@ func checkCase(c schedCase) (fw.Outcome, *fw.Violation) {
 	for i, r := range results {
 		total += r.commits
 		for k, e := range r.errs {
-			if c.Mode == "create" {
+			if c.Mode == "create" && strings.HasPrefix(c.Procs[i].Kind, "creator") {
 				continue // losing creators fail at once without waiting (already exists / lock held); judged below
+			}
+			if c.Mode == "create" && !r.errAfter[k] {
+				continue // the table did not exist (or was not committed yet) when the statement began: any refusal is fine
 			}
 			if !r.timedOut {
 				return o, fw.V("unexpected_error:"+e, "process %d (%s) failed although its wait timeout never expired: %s%s", i, c.Procs[i].Kind, r.errMsgs[k], describe())
@@ -390,9 +446,32 @@ func checkCase(c schedCase) (fw.Outcome, *fw.Violation) {
 					winner = i
 				}
 			}
-			if err != nil || string(b) != fmt.Sprintf("a\n%d\n", winner+1) {
-				return o, fw.V("created_table_wrong", "creator %d committed but the file is %q (err %v)%s", winner, string(b), err, describe())
+			wantFile := "a\n" + strings.ReplaceAll(createStates[len(createStates)-1], ",", "\n") + "\n"
+			if err != nil || string(b) != wantFile || !strings.HasPrefix(wantFile, fmt.Sprintf("a\n%d\n", winner+1)) {
+				return o, fw.V("created_table_wrong", "creator %d committed (states after each commit: %q) but the file is %q (err %v)%s", winner, createStates, string(b), err, describe())
 			}
+		}
+		appended := 0
+		for i, r := range results {
+			appended += r.appends
+			for _, v := range r.reads {
+				ok := false
+				for _, st := range createStates[1:] {
+					if st == v {
+						ok = true
+					}
+				}
+				if !ok {
+					return o, fw.V("created_table_read_uncommitted", "process %d read column a = [%s] of the table being created; the committed contents were %q%s", i, v, createStates[1:], describe())
+				}
+				o.Classes = append(o.Classes, "read_created_table")
+			}
+		}
+		if total == 1 && appended != len(createStates)-2 {
+			return o, fw.V("created_table_lost_insert", "%d INSERT transactions into the new table reported success, %d commits were observed%s", appended, len(createStates)-2, describe())
+		}
+		if appended > 0 {
+			o.Classes = append(o.Classes, "extended_created_table")
 		}
 	}
 	o.Evals = 1
@@ -444,6 +523,7 @@ type stressCase struct {
 	Readers int   `json:"readers"`
 	Delays  []int `json:"delays_ms"` // start offsets
 	ForUpd  bool  `json:"for_update"`
+	Pad     int   `json:"pad"` // further rows that carry the same counter: the file outgrows one write(2) / one read buffer
 }
 
 func genStress(t *rapid.T) stressCase {
@@ -455,11 +535,15 @@ func genStress(t *rapid.T) stressCase {
 	for i := 0; i < c.Procs+c.Readers; i++ {
 		c.Delays = append(c.Delays, fw.Range(t, "delay", 0, 20))
 	}
+	c.Pad = []int{0, 0, 300, 3000, 20000}[fw.Uniform(t, "pad", 5)]
+	if c.Pad == 20000 && c.Procs*c.Txns > 72 {
+		c.Pad = 3000 // the transactions run one after the other: keep a thorough-tier round within seconds
+	}
 	return c
 }
 
 func checkStress(c stressCase) (fw.Outcome, *fw.Violation) {
-	o := fw.Outcome{Classes: []string{fmt.Sprintf("procs=%d", c.Procs)}}
+	o := fw.Outcome{Classes: []string{fmt.Sprintf("procs=%d", c.Procs), fmt.Sprintf("pad=%d", c.Pad)}}
 	bin, err := run.Binary(fw.WorkDir(), false)
 	if err != nil {
 		return o, fw.Harness("%v", err)
@@ -470,7 +554,7 @@ func checkStress(c stressCase) (fw.Outcome, *fw.Violation) {
 	defer os.RemoveAll(dir)
 	home := filepath.Join(fw.WorkDir(), "clihome")
 	_ = os.MkdirAll(home, 0755)
-	_ = os.WriteFile(filepath.Join(dir, "c.csv"), []byte("n\n0\n"), 0644)
+	_ = os.WriteFile(filepath.Join(dir, "c.csv"), []byte("n\n"+strings.Repeat("0\n", 1+c.Pad)), 0644)
 	var wprog, rprog strings.Builder
 	for k := 0; k < c.Txns; k++ {
 		if c.ForUpd {
@@ -518,25 +602,36 @@ func checkStress(c stressCase) (fw.Outcome, *fw.Violation) {
 		if !ot.writer {
 			// every value read is a committed value: a non-negative integer not above the final count, non-decreasing
 			prev := -1
-			for _, ln := range strings.Fields(ot.res.Stdout) {
+			lines := strings.Fields(ot.res.Stdout)
+			if len(lines) != c.Txns*(1+c.Pad) {
+				return o, fw.V("stress_reader_rows", "reader %d printed %d lines for %d SELECTs over %d rows", i, len(lines), c.Txns, 1+c.Pad)
+			}
+			for k, ln := range lines {
 				v := -1
 				fmt.Sscanf(ln, "%d", &v)
+				if k%(1+c.Pad) != 0 {
+					// every row of one SELECT carries the same counter: a reader never sees a half-written table
+					if v != prev {
+						return o, fw.V("stress_reader_torn", "reader %d: SELECT %d returned rows with different counters (%d and %d): it saw a table in the middle of being written", i, k/(1+c.Pad), prev, v)
+					}
+					continue
+				}
 				if v < prev || v < 0 || v > c.Procs*c.Txns {
-					return o, fw.V("stress_reader_value", "reader %d saw values %q (not a non-decreasing sequence of committed values)", i, ot.res.Stdout)
+					return o, fw.V("stress_reader_value", "reader %d saw values %.300q (not a non-decreasing sequence of committed values)", i, ot.res.Stdout)
 				}
 				prev = v
 			}
 		}
 	}
 	b, _ := os.ReadFile(filepath.Join(dir, "c.csv"))
-	if string(b) != fmt.Sprintf("n\n%d\n", done) {
-		return o, fw.V("stress_lost_update", "%d processes x %d transactions: %d commits reported, final table %q", c.Procs, c.Txns, done, string(b))
+	if string(b) != "n\n"+strings.Repeat(fmt.Sprintf("%d\n", done), 1+c.Pad) {
+		return o, fw.V("stress_lost_update", "%d processes x %d transactions: %d commits reported, final table (%d bytes) begins %.60q", c.Procs, c.Txns, done, len(b), string(b))
 	}
 	if cf := run.ControlFiles(dir); len(cf) > 0 {
 		return o, fw.V("stress_control_files_left", "%v", cf)
 	}
 	o.Evals = c.Procs + c.Readers
-	o.Fingerprint = fmt.Sprintf("stress|%d|%d|%d|%v", c.Procs, c.Txns, c.Readers, c.ForUpd)
+	o.Fingerprint = fmt.Sprintf("stress|%d|%d|%d|%v|%d", c.Procs, c.Txns, c.Readers, c.ForUpd, c.Pad)
 	return o, nil
 }
 
@@ -544,6 +639,6 @@ func TestC09Stress(t *testing.T) {
 	fw.Run(t, fw.Spec[stressCase]{
 		ID: "C09", Name: "stress", Quick: 16, Thorough: 200,
 		Gen: genStress, Check: checkStress,
-		Rule: "4-12 (thorough 8-32) real csvq processes with generated start offsets each run 2-6 (5-20) increment transactions (optionally SELECT FOR UPDATE first) next to 0-4 reader processes, wait timeout 600 s; oracle: every process exits 0, final counter = number of DONE markers printed after successful COMMITs, readers see non-decreasing committed values, no control files remain; every case is non-trivial (real contention), distinct by (processes, transactions, readers, for-update)",
+		Rule: "4-12 (thorough 8-32) real csvq processes with generated start offsets each run 2-6 (5-20) increment transactions (optionally SELECT FOR UPDATE first) next to 0-4 reader processes, wait timeout 600 s; oracle: every process exits 0, final counter = number of DONE markers printed after successful COMMITs, readers see non-decreasing committed values, no control files remain; the table has 1, 301, 3001 or 20001 rows that all carry the counter (UPDATE changes every row), so the file outgrows one write(2) and one read buffer: every SELECT of a reader must return rows that all agree (never a table in the middle of being written) and the final file must hold the final counter in every row; every case is non-trivial (real contention), distinct by (processes, transactions, readers, for-update, rows)",
 	})
 }
